@@ -275,6 +275,53 @@ def rule_read(c, prog):
         c.violation(R, "unknown-type", "read_value_xml no longer skips unknown type elements with eat_unknown_tag", rv.sp, instance="unknown-type:eaten")
 
 
+def rule_cr(c, prog, R="C05.cr"):
+    """XML 1.0 section 2.11: a parser hands the application LF for every literal CR LF and lone CR, inside CDATA too.  A
+    CR in a value therefore survives an independent parser only when written as the character reference &#13; outside
+    CDATA.  xml-rs (trusted, DESIGN section 7) escapes & < > in character data and nothing in CDATA, so the function
+    that hands text to it has to treat CR itself."""
+    c.rule(R, "a function that hands non-constant text to xml-rs as character data or CDATA (XmlEvent::characters / ::cdata) tests that text for a carriage return (a '\\r' / \"&#13;\" / 0x0D literal or a control-character test on its path): xml-rs writes CR as a raw byte, which every conformant XML parser reads back as LF")
+    sinks = []
+    for f in prog.lib_fns():
+        if f.crate != "rbx_xml" or f.body is None:
+            continue
+        for x in core.walk_fn(f):
+            if x.get("k") == "Call" and re.search(r"xml::writer::events::XmlEvent::<'a>::(characters|cdata)$", core.callee(x) or "") and x["args"] and core.lit_value(x["args"][0]) is None:
+                a = core.strip(x["args"][0])
+                # text of the caller's choosing only: a string parameter itself (behind borrows / as_str / as_ref), not
+                # text computed here (base64, formatted numbers), whose alphabet the producing call decides
+                while a.get("k") in ("AddrOf", "Unary") or (a.get("k") == "MethodCall" and a["m"] in ("as_str", "as_ref", "deref", "borrow") and not a["args"]):
+                    a = core.strip(a["e"] if "e" in a else a["recv"])
+                plids = {lid for _n, (lid, t) in core.param_lids(f).items() if re.search(r"\bstr\b|String", t or "")}
+                if a.get("k") == "Path" and a.get("lid") in plids:
+                    sinks.append((f, x))
+    byfn = {}
+    for f, x in sinks:
+        byfn.setdefault(f.path, (f, []))[1].append(x)
+    c.floor(R, len(byfn), 1, "functions handing caller-chosen text to xml-rs")
+
+    def mentions_cr(fn, depth=2):
+        for y in core.walk_fn(fn):
+            if y.get("k") == "Lit":
+                v = (y.get("lit") or {}).get("v")
+                if v in ("\r", 13, "&#13;", "&#xD;", "&#xd;") or (isinstance(v, str) and ("\r" in v or "&#13;" in v or "&#xD;" in v.upper().replace("&#XD;", "&#xD;"))):
+                    return True
+            if y.get("k") == "MethodCall" and y["m"] in ("is_control", "is_ascii_control"):
+                return True
+            if depth and y.get("k") in ("Call", "MethodCall"):
+                g = prog.fns.get(core.callee(y) or "")
+                if g is not None and g.crate == "rbx_xml" and g.body is not None and g.path != fn.path and mentions_cr(g, depth - 1):
+                    return True
+        return False
+    for path, (f, xs) in sorted(byfn.items()):
+        inst = f"{path}|carriage-return"
+        if mentions_cr(f):
+            c.ok(R, inst)
+        else:
+            kinds = sorted({(core.callee(x) or "").rsplit("::", 1)[-1] for x in xs})
+            c.violation(R, f"{path}|raw-cr", f"{path} passes its text to xml-rs as {' / '.join(kinds)} without looking for a carriage return: a value containing CR (a script source with CRLF line endings, a name, a URI) is written as the raw byte 0x0D, which an independent XML parser normalises to LF — the document reads back to a different string", core.loc(xs[0]), instance=inst)
+
+
 def rule_scratch(c, prog, R="C05.scratch"):
     fns = [f for f in prog.lib_fns() if f.crate == "rbx_xml" and ("::serializer" in f.path or "::types::" in f.path)]
     common.rule_scratch(c, prog, R, fns, what="entry")
@@ -283,6 +330,7 @@ def rule_scratch(c, prog, R="C05.scratch"):
 def run(c, prog):
     common.rule_base64_whole(c, prog, "C05.b64")
     rule_scratch(c, prog)
+    rule_cr(c, prog)
     rule_tags(c, prog)
     rule_doc(c, prog)
     rule_read(c, prog)
